@@ -279,6 +279,12 @@ func (ev *evaluator) unary(x *EUn) Val {
 		// address of a field of a heap object: &p.f
 		if sel, ok := x.X.(*ESel); ok {
 			base := ev.eval(sel.X)
+			if _, isStruct := base.typ.Underlying().(*types.Struct); isStruct {
+				// &a.b.f: a.b is a struct held inside a pointed-to struct
+				if _, nested := sel.X.(*ESel); nested {
+					base = ev.unary(&EUn{Op: "&", X: sel.X})
+				}
+			}
 			if _, isPtr := base.typ.Underlying().(*types.Pointer); isPtr {
 				bp := c.ptrOf(base)
 				stt, ok := bp.elemType().Underlying().(*types.Struct)
